@@ -86,6 +86,8 @@ def standard_configs(rng):
         Config("podGac-disabled", "podGac", d322, 30, kw=dict(adjust_clock_drift=False), cfg=(1, 0, 1, 1)),
         Config("podGac-no-table", "podGac", d322, 30, sat_id=8, cfg=(1, 1, 0, 1)),
         Config("podLac-drift", "podLac", d322 + 5000000, 12, cfg=(1, 1, 1, 1)),
+        # a full-resolution POD pass ending at the largest line number of the signed 16-bit field
+        Config("podLac-drift-top", "podLac", d322 + 7000000, 12, nums=list(range(32756, 32768)), cfg=(1, 1, 1, 1)),
         Config("klmGac", "klmGac", ydm_to_ms(2002, 187, 68700000), 40, cfg=(0, 1, 0, 1)),
         Config("klmGac-midnight-tiepoints", "klmGac", ydm_to_ms(2002, 186, 86400000 - 7300), 30,
                kw=dict(interpolate_coords=False), cfg=(0, 1, 0, 1)),
